@@ -48,6 +48,8 @@ Print Assumptions kind_in_matches.
 Print Assumptions kind_out_matches.
 Print Assumptions edge_kinds_match.
 Print Assumptions inputs_must_connect_matches.
+Print Assumptions r_inputs_once_matches.
+Print Assumptions r_linear_once_matches.
 Print Assumptions fields_modelled.
 Print Assumptions df_sig_matches.
 Print Assumptions inner_sig_matches.
@@ -65,11 +67,11 @@ rm -rf "$TMP"
 echo "$OUT"
 [ $rc -eq 0 ] || { echo "FAIL: Print Assumptions"; exit 1; }
 n=$(echo "$OUT" | grep -c "Closed under the global context")
-if [ "$n" -ne 30 ]; then echo "FAIL: $n of 30 theorems closed"; exit 1; fi
+if [ "$n" -ne 32 ]; then echo "FAIL: $n of 32 theorems closed"; exit 1; fi
 echo "$OUT2"
 [ $rc2 -eq 0 ] || { echo "FAIL: C01_rust_tables.props.v"; exit 1; }
 m=$(echo "$OUT2" | grep -c "Closed under the global context")
 k=$(grep -c "^Theorem C01_validity_tables_match_rust" "$HERE/C01_rust_tables.props.v")
 if [ "$m" -ne "$k" ]; then echo "FAIL: $m of $k property-level theorems closed"; exit 1; fi
 echo "OK rust-tables-props: $k property-level theorems closed under the global context"
-echo "OK rust-tables: scanner accepted $REPO, 30 theorems closed under the global context"
+echo "OK rust-tables: scanner accepted $REPO, 32 theorems closed under the global context"
